@@ -52,7 +52,7 @@ theorem rowMajor_length (dims : Idx) : (rowMajor dims).length = (product dims).t
 
 theorem rowMajorFrom_getElem? (dims : Idx) (k n j : Nat) (hj : j < n) :
     (rowMajorFrom dims k n)[j]? = some (unravel ((k + j : Nat) : Int) dims) := by
-  simp [rowMajorFrom, List.getElem?_map, List.getElem?_range' , hj]
+  simp [rowMajorFrom, hj]
 
 theorem rowMajorFrom_inBounds {dims : Idx} (hp : Pos dims) (k n : Nat) (hk : ((k + n : Nat) : Int) ≤ product dims) :
     ∀ i ∈ rowMajorFrom dims k n, InBounds i dims := by
@@ -465,10 +465,10 @@ theorem reshape_nil {h : Heap α} {a : Arr} (g : Geo a.v) (ok : ArrOK h a) (hsz 
     | false => exact ⟨.fresh vals, by rw [unroll_gather (Or.inr hb), unrollGather_eq g, hv]; rfl⟩
   cases hC : a.isC with
   | true =>
-    cases b <;> simp [unrollGather_eq g, hv, hroot, alloc]
+    cases b <;> simp [unrollGather_eq g, hv, hroot]
   | false =>
     obtain ⟨u, hu⟩ := hu hC
-    cases u <;> simp [hu, hroot, implOf, alloc]
+    cases u <;> simp [hu, hroot]
 
 theorem rootView_index (s : Idx) (st : Int) (idx : Idx) (hl : idx.length = s.length) :
     (rootView s st).index idx = .ok (st + ravel idx s) := by
